@@ -5,7 +5,13 @@
 //! `C20.write <bdd> <names> <pruned> <script> => x<hex of to_dot_string> <ok|err|panic> <=|x<hex of the bytes that reached the sink>>`
 //! exports through `write_as_dot_string` into a scripted sink (`serial_io::SWriter`: every `write` call consumes one
 //! event: `gK` accept at most K bytes, `i` Interrupted, `e` hard error; a final `*K` = every further call accepts at
-//! most K bytes; an exhausted script accepts everything).
+//! most K bytes; `gK^N` = N calls accepting at most K bytes; an exhausted script accepts everything). When `to_dot_string`
+//! panics the first field is `panic` and the export into the sink is still performed.
+//! `C20.writeinv …` same line format as `C20.write`, for INVALID diagrams (a decision node whose variable has no name;
+//! constructible through `Bdd::from_string`, which does not validate): the sink's error may come before the panic.
+//! `C20.pieces <bdd> <names> <pruned> => <ok|err|panic> <buffer lengths of the successive write calls>` (accept-all sink).
+//! `C20.big <n> <total> <seed> <pruned> => …` one hand-built valid diagram with `total` nodes; the text is digested and
+//! read back by the harness's own line reader (see `read_back`), the observations are counts.
 //! Names travel hex-encoded (`h<utf8 bytes>`, lists joined by `,`, the empty list is `~`).
 #[path = "../common.rs"]
 mod common;
@@ -35,6 +41,121 @@ fn dec_names(f: &str) -> Vec<String> {
     if f == "~" { vec![] } else { f.split(',').map(dec_name).collect() }
 }
 
+/// a valid (level-ordered, not reduced) diagram with `total` nodes over `n` variables, built by hand from a seed: the
+/// variable decreases with the node index, children are earlier nodes of deeper levels or terminals
+fn big_triples(n: usize, total: usize, seed: u64) -> Vec<(usize, usize, usize)> {
+    let mut rng = Rng64(seed ^ 0xB16D1A6);
+    let mut t = vec![(n, 0, 0), (n, 1, 1)];
+    let var_of = |i: usize| (n - 1) - ((i - 2) * n / (total - 2)).min(n - 1);
+    let mut layer_start = 2usize;
+    for i in 2..total {
+        let v = var_of(i);
+        if i > 2 && v != var_of(i - 1) { layer_start = i; }
+        let mut pick = |rng: &mut Rng64| if layer_start > 2 && rng.chance(7, 8) { 2 + rng.below((layer_start - 2) as u64) as usize } else { rng.below(2) as usize };
+        let (lo, hi) = (pick(&mut rng), pick(&mut rng));
+        t.push((v, lo, hi));
+    }
+    t
+}
+
+/// the harness's own reader of `.dot` text for the big-diagram stream (line based, independent of the library):
+/// returns the observations listed at `C20.big`
+fn read_back(text: &str, t: &[(usize, usize, usize)], names: &[String], pruned: bool, seed: u64) -> Vec<String> {
+    use std::collections::{HashMap, HashSet};
+    let size = t.len();
+    let (mut unparsed, mut vertices, mut label_bad, mut edges, mut dangling, mut wrong) = (0usize, 0usize, 0usize, 0usize, 0usize, 0usize);
+    let mut ids: HashMap<usize, String> = HashMap::new();
+    let mut edge_keys: HashSet<(usize, bool)> = HashSet::new();
+    let mut edge_list: Vec<(usize, usize, bool)> = vec![];
+    let mut entries: Vec<usize> = vec![];
+    let mut terminals: Vec<usize> = vec![];
+    let (mut headers, mut footers, mut initnodes) = (0, 0, 0);
+    let lines: Vec<&str> = text.split('\n').collect();
+    let body = if lines.last() == Some(&"") { &lines[..lines.len() - 1] } else { unparsed += 1; &lines[..] };
+    for l in body {
+        if *l == "digraph G {" { headers += 1; continue; }
+        if *l == "}" { footers += 1; continue; }
+        if *l == "init__ [label=\"\", style=invis, height=0, width=0];" { initnodes += 1; continue; }
+        if let Some(r) = l.strip_prefix("init__ -> ") {
+            match r.strip_suffix(';').and_then(|x| x.parse::<usize>().ok()) { Some(p) => entries.push(p), None => unparsed += 1 }
+            continue;
+        }
+        let d = l.bytes().take_while(|b| b.is_ascii_digit()).count();
+        if d == 0 { unparsed += 1; continue; }
+        let id: usize = match l[..d].parse() { Ok(x) => x, Err(_) => { unparsed += 1; continue; } };
+        let rest = &l[d..];
+        if let Some(r) = rest.strip_prefix("[label=\"") {
+            match r.strip_suffix("\"];") {
+                Some(label) => {
+                    vertices += 1;
+                    let expect = if id >= 2 && id < size && t[id].0 < names.len() { Some(&names[t[id].0]) } else { None };
+                    if expect.map(|e| e.as_str()) != Some(label) { label_bad += 1; }
+                    ids.insert(id, label.to_string());
+                }
+                None => unparsed += 1,
+            }
+        } else if let Some(r) = rest.strip_prefix(" -> ") {
+            let d2 = r.bytes().take_while(|b| b.is_ascii_digit()).count();
+            let style = &r[d2..];
+            let filled = style == " [style=filled];";
+            if d2 == 0 || !(filled || style == " [style=dotted];") { unparsed += 1; continue; }
+            let q: usize = r[..d2].parse().unwrap_or(usize::MAX);
+            edges += 1;
+            edge_keys.insert((id, filled));
+            edge_list.push((id, q, filled));
+        } else if rest == format!(" [shape=box, label=\"{}\", style=filled, shape=box, height=0.3, width=0.3];", id) && id < 2 {
+            terminals.push(id);
+        } else { unparsed += 1; }
+    }
+    let mut out_edges: HashMap<(usize, bool), usize> = HashMap::new();
+    for (p, q, filled) in &edge_list {
+        let declared = ids.contains_key(q) || terminals.contains(q);
+        if !declared || !ids.contains_key(p) { dangling += 1; }
+        let ok = *p >= 2 && *p < size && (if *filled { t[*p].2 } else { t[*p].1 }) == *q;
+        if !ok { wrong += 1; }
+        out_edges.insert((*p, *filled), *q);
+    }
+    // sampled valuations: the graph read back (missing edge / undeclared vertex = 0) against the harness's own walk
+    let index_of: HashMap<&str, usize> = names.iter().enumerate().map(|(i, s)| (s.as_str(), i)).collect();
+    let mut rng = Rng64(seed ^ 0xE7A1);
+    let mut eval_bad = 0usize;
+    for _ in 0..64 {
+        let val: Vec<bool> = (0..names.len()).map(|_| rng.bool()).collect();
+        let mut p = size - 1;
+        while p >= 2 { let (v, lo, hi) = t[p]; p = if val[v] { hi } else { lo }; }
+        let expect = p == 1;
+        let mut cur = *entries.first().unwrap_or(&0);
+        let mut steps = 0;
+        let got = loop {
+            if terminals.contains(&cur) { break cur == 1; }
+            steps += 1;
+            if steps > names.len() + 2 { break false; }
+            match ids.get(&cur) {
+                None => break false,
+                Some(label) => {
+                    let b = index_of.get(label.as_str()).map(|i| val[*i]).unwrap_or(false);
+                    match out_edges.get(&(cur, b)) { Some(q) => cur = *q, None => break false }
+                }
+            }
+        };
+        if got != expect { eval_bad += 1; }
+    }
+    let _ = pruned;
+    terminals.sort();
+    vec![
+        format!("{}/{}/{}", headers, footers, initnodes), unparsed.to_string(), vertices.to_string(), ids.len().to_string(),
+        label_bad.to_string(), edges.to_string(), edge_keys.len().to_string(), dangling.to_string(), wrong.to_string(),
+        fmt_usizes(&entries), fmt_usizes(&terminals), eval_bad.to_string(),
+    ]
+}
+
+/// a sink that accepts everything and records the length of every buffer it is offered
+struct Recorder { calls: Vec<usize> }
+impl std::io::Write for Recorder {
+    fn write(&mut self, buf: &[u8]) -> std::io::Result<usize> { self.calls.push(buf.len()); Ok(buf.len()) }
+    fn flush(&mut self) -> std::io::Result<()> { Ok(()) }
+}
+
 /// `i.g3.*7`: events separated by `.`, an optional final `*K` repeated as often as `len` bytes can need
 fn parse_sink_script(s: &str, len: usize) -> Vec<Ev> {
     let mut evs = vec![];
@@ -45,6 +166,11 @@ fn parse_sink_script(s: &str, len: usize) -> Vec<Ev> {
             for _ in 0..(len + 2) { evs.push(Ev::Give(k)); }
         } else if tok == "i" { evs.push(Ev::Intr) }
         else if tok == "e" { evs.push(Ev::Fail) }
+        else if let Some((k, n)) = tok[1..].split_once('^') {
+            // `gK^N`: N calls that accept at most K bytes each
+            let (k, n): (usize, usize) = (k.parse().unwrap(), n.parse().unwrap());
+            for _ in 0..n { evs.push(Ev::Give(k)); }
+        }
         else { evs.push(Ev::Give(tok[1..].parse().unwrap())) }
     }
     evs
@@ -53,7 +179,7 @@ fn parse_sink_script(s: &str, len: usize) -> Vec<Ev> {
 pub fn run(key: &str, a: &[String], out: &mut Out) {
     out.begin(key, a);
     match key {
-        "C20.write" => {
+        "C20.write" | "C20.writeinv" => {
             let bdd = Bdd::from_string(&a[0]);
             let names = dec_names(&a[1]);
             let pruned = a[2] == "1";
@@ -62,15 +188,61 @@ pub fn run(key: &str, a: &[String], out: &mut Out) {
                 Some(vs) => vs,
                 None => { out.case(key, a, &[s("badset")]); return; }
             };
-            let text = match catch(|| bdd.to_dot_string(&vs, pruned)) {
-                Some(t) => t,
-                None => { out.case(key, a, &[s("panic"), s("panic"), s("~")]); return; }
-            };
-            let mut sink = SWriter::new(&parse_sink_script(&a[3], text.len()));
+            // `to_dot_string` may panic (wrong number of names, a decision node whose variable has no name): the export
+            // into the sink is still performed — the sink's error may come first
+            let text = catch(|| bdd.to_dot_string(&vs, pruned));
+            // `C20.write`: diagrams that `to_dot_string` exports; `C20.writeinv`: the sink export is performed whatever
+            // `to_dot_string` does
+            if key == "C20.write" && text.is_none() { out.case(key, a, &[s("panic"), s("panic"), s("~")]); return; }
+            let len = text.as_ref().map(|t| t.len()).unwrap_or(64 * bdd.size() + 256);
+            let mut sink = SWriter::new(&parse_sink_script(&a[3], len));
             let res = catch(|| bdd.write_as_dot_string(&mut sink, &vs, pruned));
             let status = match &res { Some(Ok(())) => "ok", Some(Err(_)) => "err", None => "panic" };
-            let got = if sink.out == text.as_bytes() { s("=") } else { format!("x{}", hex(&sink.out)) };
-            out.case(key, a, &[format!("x{}", hex(text.as_bytes())), s(status), got]);
+            let got = match &text {
+                Some(t) if sink.out == t.as_bytes() => s("="),
+                _ => format!("x{}", hex(&sink.out)),
+            };
+            let f1 = match &text { Some(t) => format!("x{}", hex(t.as_bytes())), None => s("panic") };
+            out.case(key, a, &[f1, s(status), got]);
+        }
+        "C20.big" => {
+            // n total seed pruned => <node array> <fnv64 of the text> <bytes> <header/footer/initnode counts> <unparsed lines>
+            //   <vertex statements> <distinct vertex ids> <vertices with a wrong label> <edge statements>
+            //   <distinct (source, style)> <edges from/to undeclared vertices> <edges that are not a link of the diagram>
+            //   <entry edges> <terminal ids> <sampled valuations (of 64) on which the graph read back differs from the diagram>
+            let n: usize = a[0].parse().unwrap();
+            let total: usize = a[1].parse().unwrap();
+            let seed: u64 = a[2].parse().unwrap();
+            let pruned = a[3] == "1";
+            let t = big_triples(n, total, seed);
+            let bdd = bdd_from_triples(&t);
+            let names: Vec<String> = (0..n).map(|i| format!("n{}", i)).collect();
+            let refs: Vec<&str> = names.iter().map(|x| x.as_str()).collect();
+            let vs = BddVariableSet::new(&refs);
+            match catch(|| bdd.to_dot_string(&vs, pruned)) {
+                None => out.case(key, a, &[fmt_bdd(&bdd), s("panic")]),
+                Some(text) => {
+                    let mut o = vec![fmt_bdd(&bdd), format!("{:016x}", serial_io::fnv(text.as_bytes())), text.len().to_string()];
+                    o.append(&mut read_back(&text, &t, &names, pruned, seed));
+                    out.case(key, a, &o);
+                }
+            }
+        }
+        "C20.pieces" => {
+            // bdd names pruned => the buffer lengths of the successive `write` calls into a sink that accepts everything
+            // (how `write_fmt` cuts the text into `write_all` pieces) | panic
+            let bdd = Bdd::from_string(&a[0]);
+            let names = dec_names(&a[1]);
+            let pruned = a[2] == "1";
+            let refs: Vec<&str> = names.iter().map(|x| x.as_str()).collect();
+            let vs = match catch(|| BddVariableSet::new(&refs)) {
+                Some(vs) => vs,
+                None => { out.case(key, a, &[s("badset")]); return; }
+            };
+            let mut rec = Recorder { calls: vec![] };
+            let res = catch(|| bdd.write_as_dot_string(&mut rec, &vs, pruned));
+            let status = match &res { Some(Ok(())) => "ok", Some(Err(_)) => "err", None => "panic" };
+            out.case(key, a, &[s(status), fmt_usizes(&rec.calls)]);
         }
         "C20.dot" => {
             let bdd = Bdd::from_string(&a[0]);
@@ -194,6 +366,14 @@ pub fn gen(tier: Tier, rng: &mut Rng64, out: &mut Out) {
         }
         run("C20.write", &[big.clone(), enc_names(&names), s("1"), s("*4096")], out);
     }
+    // --- one big diagram (node ids with six digits), both pruning modes; thorough: a few more sizes
+    {
+        let sizes: Vec<(usize, usize)> = if thorough { vec![(40, 131072), (17, 100001), (64, 250000), (12, 99999)] } else { vec![(40, 131072)] };
+        for (n, total) in sizes {
+            let seed = rng.below(1 << 30);
+            for p in ["0", "1"] { run("C20.big", &[n.to_string(), total.to_string(), seed.to_string(), s(p)], out); }
+        }
+    }
     // --- malformed stream: labels that need escaping (the export does not escape), name count mismatch,
     //     a decision node whose variable has no name
     let weird: [&[&str]; 5] = [&["a\"b", "c"], &["a\\", "b"], &["li\nne", "b"], &["\"", "\\\""], &["c\rr", "b"]];
@@ -209,8 +389,28 @@ pub fn gen(tier: Tier, rng: &mut Rng64, out: &mut Out) {
             both(&fmt_bdd(&bdd_of_tt(n, &tt_from_index(n, t))), &names, out);
         }
     }
-    for b in ["|2,0,0|2,1,1|5,0,1|", "|2,0,0|2,1,1|2,0,1|", "|2,0,0|2,1,1|1,0,1|0,2,7|", "|2,0,0|2,1,1|1,0,1|0,2,2|0,3,1|"] {
+    let invalid = ["|2,0,0|2,1,1|5,0,1|", "|2,0,0|2,1,1|2,0,1|", "|2,0,0|2,1,1|1,0,1|0,2,7|", "|2,0,0|2,1,1|1,0,1|0,2,2|0,3,1|",
+        "|2,0,0|2,1,1|1,0,1|0,2,1|9,3,2|1,0,4|", "|2,0,0|2,1,1|1,0,1|2,2,0|0,3,1|", "|1,0,0|1,1,1|5,0,1|"];
+    for b in invalid {
         both(b, &[s("a"), s("b")], out);
+        // invalid diagrams (constructible through `Bdd::from_string`, which does not validate) into failing sinks: the
+        // sink's error comes before / after the node whose variable has no name
+        for p in ["0", "1"] {
+            for sc in ["~", "*1", "*7", "e", "g3.e", "g40.e", "g100.e", "g150.e", "g170.e", "g200.e", "g260.e", "g400.e", "i.g120.g0", "*5.e"] {
+                run("C20.writeinv", &[s(b), enc_names(&[s("a"), s("b")]), s(p), s(sc)], out);
+            }
+            // the j-th `write` call fails: before, at and after the nameless node
+            for j in 0..36usize { run("C20.writeinv", &[s(b), enc_names(&[s("a"), s("b")]), s(p), format!("g4096^{}.e", j)], out); }
+            run("C20.pieces", &[s(b), enc_names(&[s("a"), s("b")]), s(p)], out);
+        }
+    }
+    // how `write_fmt` cuts the text into `write_all` pieces (names of several lengths, the empty name, multi-digit ids)
+    for _ in 0..(if thorough { 2000 } else { 120 }) {
+        let n = 1 + rng.below(6) as usize;
+        let b = random_bdd(rng, n);
+        let sets = name_sets(n);
+        let names: Vec<String> = rng.pick(&sets[..]).clone();
+        run("C20.pieces", &[fmt_bdd(&b), enc_names(&names), s(if rng.bool() { "1" } else { "0" })], out);
     }
 }
 
